@@ -30,7 +30,18 @@ def pipeline(ctx, quick):
     return flags
 
 
-ITEMS = [("pipeline", pipeline)]
+def daemon(ctx, quick):
+    """cmd/audit's chain: start-up requests (GetStatus, NoWait settings, SetPID), then
+    Receive -> type filter 1100..2999 -> Reassembler.Push -> CoalesceMessages, with the NoWait
+    ACKs, other netlink types, EINTR and truncated datagrams arriving inside the event stream."""
+    tp = ctx.path("pipe", "daemon.ndjson")
+    st = ctx.driver_json(["daemon-run", "--out", tp, "--seed", ctx.seed, "--n", 100 if quick else 3000], timeout=3000)["stats"]
+    flags, n = core.judge_traces(ctx, "pipeline", "PipelineTrace", TRACE_CFG, tp)
+    ctx.log("daemon chain: %s; %d records judged; %d flags" % (st, n, len(flags)))
+    return flags
+
+
+ITEMS = [("pipeline", pipeline), ("daemon", daemon)]
 
 
 def run(tier, seed, only=None):
